@@ -28,6 +28,8 @@ class Task(object):
         self.crash = None
         self.steps = 0
         self.thread = None
+        self.op_counts = {}
+        self.op_stalls = {}       # (op, nth) -> dur_us: pre-emption right at that seam
 
     def ready(self, now):
         if self.done:
@@ -85,6 +87,11 @@ class Kernel(object):
             self.count("fault.stall_" + task.name)
             self.log.add("stall", self.now_us, task.name, int(dur_us))
         self.at(at_us, do, "stall")
+
+    def stall_at_op(self, task, op, nth, dur_us):
+        """Freeze ``task`` for ``dur_us`` when it makes its nth seam call ``op``
+        (descheduled at that program point, between two seams of one loop pass)."""
+        task.op_stalls[(op, int(nth))] = int(dur_us)
 
     def count(self, key, n=1):
         self.counters[key] = self.counters.get(key, 0) + n
@@ -208,6 +215,14 @@ class Kernel(object):
             raise SimExit()
         if len(self.sched) < 4000:
             self.sched.append((t.idx, op))
+        if t.op_stalls:
+            n = t.op_counts.get(op, 0) + 1
+            t.op_counts[op] = n
+            d = t.op_stalls.get((op, n))
+            if d:
+                t.frozen_until = max(t.frozen_until, self.now_us + d)
+                self.count("fault.preempted_at_" + op.split(":")[0] + "_" + t.name)
+                self.log.add("preempt", self.now_us, t.name, op, d)
         t.wait = (cond, deadline, op) if (cond is not None or deadline is not None) else None
         if t.wait is not None and not t.ready(self.now_us):
             self.count("blocked." + op)
